@@ -27,7 +27,7 @@ NatRd == EncodeRData(t, Val)
 Sentinel(i) == EncRecord([name |-> <<<<115>>, <<48 + i>>>>, type |-> 1, class |-> 1, cf |-> FALSE,
                           ttl |-> <<0, 0, 0, i>>, rd |-> <<<<192, 0, 2, i>>>>])
 \* padding that itself looks like the start of a record
-Pad(n) == SubSeq(Sentinel(9) \o Sentinel(9), 1, n)
+Pad(n) == LET base == Sentinel(9) IN [i \in 1 .. n |-> base[((i - 1) % Len(base)) + 1]]
 
 Owner == <<<<111>>, La>>
 RRHead(len) == EncodeNamePlain(Owner) \o BE16(t) \o BE16(1) \o <<0, 0, 0, 60>> \o BE16(len)
